@@ -225,6 +225,16 @@ def check_tensor(case):
         arr = c14.to_complex(lib_array(jac.eval(), expected), env)
         same(arr, expected.reshape(-1), "jacobian", "{} wrt {}".format(
             common.show(d), variables))
+        # the other side of the statement: the jacobian (and gradient) of
+        # the evaluation itself, a Tensor with symbolic entries
+        tjac = value.jacobian([c14.sym(v) for v in variables])
+        same(c14.to_complex(lib_array(tjac, expected), env),
+             expected.reshape(-1), "jacobian-of-the-evaluation",
+             "{} wrt {}".format(common.show(d), variables))
+        same(c14.to_complex(lib_array(value.grad(c14.sym(variables[0])),
+                                      rows[0]), env), rows[0].reshape(-1),
+             "gradient-of-the-evaluation", "{} wrt {}".format(
+                 common.show(d), variables[0]))
     if var not in symbols:
         require(len(g.terms) == 0, "C15:gradient-of-constant-not-empty",
                 lambda: "{}.grad({}) = {}".format(d, var, g))
